@@ -21,7 +21,7 @@ EXTENDS Naturals, Sequences, FiniteSets, TLC, Json, IOUtils
 
 TraceLog == ndJsonDeserialize(IOEnv.TRACE)
 Protos == 1..5
-Binds == <<1, 2, 3, 4, 5, 2, 1>>
+Binds == <<1, 2, 3, 4, 5, 2, 1, 2>>      \* shape 8: a void(int) listener that itself enqueues further events
 Accepts == <<1, 2, 2, 3, 4, 5, 2>>
 Callable == <<{1}, {2}, {3}, {4}, {5}, {2, 5}>>
 HasPayload(p) == p \in {3, 4, 5}
@@ -81,7 +81,10 @@ EvInvokeBegin == /\ Is("ib") /\ Idle
 EvEnter == /\ Is("en") /\ exp # <<>> /\ Head(exp) = <<0, E.a, E.o, E.u>> /\ E.b = 1 /\ exp' = Tail(exp) /\ UNCHANGED <<lst, kind, pending, proc, ncb>>
 EvCondAsked == /\ Is("cq") /\ exp # <<>> /\ Head(exp) = <<1, E.a, E.o, E.u>> /\ exp' = Tail(exp) /\ UNCHANGED <<lst, kind, pending, proc, ncb>>
 EvInvokeEnd == /\ Is("ie") /\ exp = <<>> /\ ~proc.on /\ UNCHANGED <<lst, kind, pending, exp, proc, ncb>> /\ Ledger
-EvEnqueue == /\ Is("nq") /\ Idle /\ pending' = Append(pending, [uid |-> E.u, p |-> Accepts[E.a]]) /\ UNCHANGED <<lst, kind, exp, proc, ncb>> /\ Ledger
+\* an enqueue at top level, or by a listener while a dispatch or a processing call runs: the event goes behind everything queued
+\* (argument objects of events in flight are still alive then, so the ledger is only read at rest)
+EvEnqueue == /\ Is("nq") /\ pending' = Append(pending, [uid |-> E.u, p |-> Accepts[E.a]]) /\ UNCHANGED <<lst, kind, exp, proc, ncb>>
+             /\ (Idle => Ledger)
 \* process (1) / processOne (2): the taken events are dispatched in order; processIf (3) with predicate shape E.b
 EvProcessBegin == /\ Is("pb") /\ Idle
                   /\ IF E.a = 3 THEN proc' = [NoProc EXCEPT !.on = TRUE, !.mode = 3, !.shape = E.b] /\ UNCHANGED <<exp, pending, lst, kind>>
